@@ -28,7 +28,7 @@ EXPLANATION = ('Parse actions, the and/or folding, the code generator (per node 
 
 
 def task_names(tier):
-    return ['fold', 'actions', 'getpath', 'compare', 'codegen', 'rowloop', 'pipeline', 'grammar/engine', 'grammar/structure', 'grammar/keywords']
+    return ['fold', 'actions', 'getpath', 'compare', 'codegen', 'rowloop', 'pipeline', 'grammar/engine', 'grammar/structure', 'grammar/keywords', 'grammar/asgiven']
 
 
 def run_task(name, tier):
